@@ -60,15 +60,17 @@ def gen_net(rng, idx, profile):
     allk = sorted({k for v in menu.values() for k in v})
     live = [x]
     cur = x
-    risky = False
+    avoid = set()
     nops = rng.randint(1, 5 if profile != "cascade" else 4)
     for step in range(nops):
         xt = b.t(cur)
         if len(xt.shape) != 4:
             break
         kind = rng.choice(menu.get(profile, allk))
-        if kind == "relu" and risky and rng.random() < 0.9:
-            kind = "conv1x1"        # the two known findings are reproduced by the corpus; keep them rare here
+        # Compositions that hit one of the recorded findings (known_findings.txt, reproduced deterministically by the
+        # corpus networks) are kept rare in the random part so that they do not mask anything else.
+        if kind in avoid and rng.random() < 0.97:
+            kind = rng.choice(["conv1x1", "add_self", "mul_const"])
         n, hh, ww, cc = xt.shape
         new = None
         b.net.desc.append(kind)
@@ -147,8 +149,14 @@ def gen_net(rng, idx, profile):
         cur = new
         live.append(cur)
         last = b.net.ops[-1]
-        risky = (last.kind in ("STRIDED_SLICE", "SPLIT", "QUANTIZE") + ACTIVATION_LIKE
-                 or bool(last.opts and last.opts[1].get("FusedActivationFunction", 0)))
+        avoid = set()
+        if last.kind in ("STRIDED_SLICE", "SPLIT"):
+            # a slice is folded into its consumer as a read offset: windows with padding and fused activations go wrong
+            avoid = set(allk) - {"conv1x1", "add_self", "add_skip", "mul_skip", "mul_const", "sub_const", "add_const", "quantize", "lrelu"}
+        if last.kind in ("QUANTIZE", "RESHAPE") + ACTIVATION_LIKE or (last.opts and last.opts[1].get("FusedActivationFunction", 0)):
+            avoid.add("relu")
+        if last.kind in ACTIVATION_LIKE or kind == "pad_conv":
+            avoid |= {"fc_end", "reshape_back"}
     if profile == "approx" and len(b.t(cur).shape) == 4:
         # the approximated operator comes last so that its error is not amplified
         k = rng.choice([(2, 2), (3, 3), (3, 3), (5, 5)])
@@ -172,7 +180,7 @@ def corpus_net(rng, name):
     import netgen
 
     b = netgen.B(rng, name, "int8")
-    x = b.input([1, 4, 9, 4] if name == "known_pad_conv_reshape" else [1, 6, 6, 8], scale=0.05, zp=3)
+    x = b.input({"known_pad_conv_reshape": [1, 4, 9, 4], "known_lut_reshape": [1, 3, 9, 8]}.get(name, [1, 6, 6, 8]), scale=0.05, zp=3)
     if name == "known_slice_relu":
         y = b.pool(x, "MAX_POOL_2D", (3, 3), (1, 1), "SAME")
         s = b.strided_slice(y, [0, 1, 2, 0], [1, 5, 6, 8])
@@ -184,6 +192,15 @@ def corpus_net(rng, name):
         p = b.pad(x, [[0, 0], [1, 0], [1, 0], [0, 0]])
         y = b.conv(p, 8, (3, 3), (1, 1), (1, 1), "VALID", act=0)
         z = b.fc(b.reshape(y, [1, int(np.prod(b.t(y).shape))]), 4)
+    elif name == "known_slice_window":
+        y = b.pool(x, "MAX_POOL_2D", (2, 2), (1, 1), "VALID")
+        s = b.strided_slice(y, [0, 2, 1, 0], [1, 4, 4, 8])
+        z = b.pool(s, "MAX_POOL_2D", (3, 3), (1, 1), "SAME")
+    elif name == "known_lut_reshape":
+        y = b.unary("LEAKY_RELU", b.conv(x, 8, (1, 1), (1, 1), (1, 1), "SAME", act=1))
+        z = b.fc(b.reshape(y, [1, int(np.prod(b.t(y).shape))]), 4)
+    elif name == "known_reshape_relu":
+        z = b.unary("RELU6", b.reshape(x, [1, 4, 9, 8]))
     else:  # known_quantize_relu
         y = b.quantize(x)
         b.t(y).scales, b.t(y).zps = [0.03], [20]
@@ -226,6 +243,7 @@ def _worker(job):
             opts = gen_opts(rng, profile)
         data = netgen.serialize(net)
         out.update(desc=net.describe(), opts=opts, src_ops=[o.kind for o in net.ops], dtype=net.tensors[net.inputs[0]].dtype,
+                   src_inputs=list(net.inputs),
                    src_graph=[(o.kind, list(o.inputs), list(o.outputs), int((o.opts[1] if o.opts else {}).get("FusedActivationFunction", 0)),
                                int((o.opts[1] if o.opts else {}).get("Padding", -1))) for o in net.ops])
         res = pipeline.compile_net(data, opts, name=f"n{idx}")
@@ -294,8 +312,17 @@ def classify_failure(o, ans):
                     and producer[ins[0]][0] == "PAD" and any(c in MEMORY_ONLY for c in consumers.get(outs[0], [])):
                 return "pad-folded-into-conv-then-reshape-resets-ofm-shape"
         return None
+    if "read_outside_region" in ans or ans.endswith("verdict=fail"):
+        # table-lookup activation whose output is consumed through a RESHAPE
+        for kind, ins, outs, faf, pad in g:
+            if kind in ("LEAKY_RELU", "LOGISTIC", "TANH", "HARD_SWISH") and any(c in MEMORY_ONLY for c in consumers.get(outs[0], [])):
+                return "lut-activation-then-reshape-resets-shapes"
     if not ans.endswith("verdict=fail"):
         return None
+    for kind, ins, outs, faf, pad in g:
+        if kind in ("CONV_2D", "DEPTHWISE_CONV_2D", "MAX_POOL_2D", "AVERAGE_POOL_2D") and pad == 0 and ins and ins[0] in producer \
+                and producer[ins[0]][0] in ("STRIDED_SLICE", "SPLIT"):
+            return "slice-read-offset-window-rows-not-clamped-to-slice"
     for kind, ins, outs, faf, pad in g:
         if kind in RELUS and ins and ins[0] in producer:
             pk, pf, _pins = producer[ins[0]]
@@ -305,6 +332,12 @@ def classify_failure(o, ans):
                 return "packed-relu-overrides-fused-activation"
             if pk == "QUANTIZE":
                 return "relu-fused-into-requantising-avgpool-adds-zero-point-twice"
+            # activation reached from a graph input through memory-only operators only
+            t = ins[0]
+            while t in producer and producer[t][0] in MEMORY_ONLY:
+                t = producer[t][2][0]
+            if t in (o.get("src_inputs") or []) and t != ins[0]:
+                return "reshape-of-graph-input-then-activation-becomes-plain-copy"
     return None
 
 
@@ -325,7 +358,8 @@ def main():
     pipeline.load_vela()
     n = 1200 if ck.thorough else 140
     k_inputs = 5 if ck.thorough else 4
-    jobs = [(0, 0, "known_" + nm, k_inputs) for nm in ("slice_relu", "fused_act_relu", "pad_conv_reshape", "quantize_relu")]
+    jobs = [(0, 0, "known_" + nm, k_inputs) for nm in ("slice_relu", "fused_act_relu", "pad_conv_reshape", "quantize_relu", "reshape_relu",
+                                                              "slice_window", "lut_reshape")]
     jobs += [(ck.seed, i, PROFILES[i % len(PROFILES)], k_inputs) for i in range(n)]
     ctx = multiprocessing.get_context("fork")
     with ProcessPoolExecutor(min(16, os.cpu_count() or 4), mp_context=ctx) as ex:
